@@ -247,8 +247,43 @@ fn listing_image(s: &Snap) -> String {
 }
 
 // ---------------------------------------------------------------------------------------------
-// strace reader
+// tracers: how the worker's write-side calls are observed
+//
+// PRIMARY: an LD_PRELOAD recorder (SHIM_C below, compiled with `cc` at start-up; needs no
+// privileges): Rust std and tokio's blocking pool reach the kernel through the libc symbols it
+// interposes. CROSS-CHECK (optional): strace, when ptrace is usable; the same execution is traced
+// by both and the two canonical traces are compared (a difference is a defect of the harness,
+// reported in stats.extra, never a property violation). An unusable tracer is an infrastructure
+// error (exit code 4 with a message), never an oracle failure.
 // ---------------------------------------------------------------------------------------------
+
+const SHIM_C: &str = include_str!("c06_shim.c");
+
+#[derive(Debug, Clone)]
+enum Ev {
+    Unlink { path: Vec<u8>, ok: bool },
+    Open { path: Vec<u8>, wr: bool, append: bool, trunc: bool, ok: bool },
+    Write { path: Option<Vec<u8>>, ok: bool, data: Vec<u8> },
+    Fsync { path: Option<Vec<u8>>, ok: bool },
+    /// a call that changes file content or names outside the sequential-write protocol
+    Other { what: String, path: Option<Vec<u8>> },
+    Rename { from: Vec<u8>, to: Vec<u8>, ok: bool },
+}
+
+#[derive(Debug, Clone)]
+enum TraceErr {
+    /// the tracer did not deliver (cannot spawn, empty or truncated log): infrastructure
+    Infra(String),
+    /// the save made a call the protocol model does not have (in-place open, pwrite, truncate …)
+    Protocol(String),
+}
+
+#[derive(Debug, Clone, Default)]
+struct Observed {
+    pre: Vec<FsOp>,
+    ops: Vec<FsOp>,
+    failed_writes: u64,
+}
 
 /// decode a `\xNN…` string (strace -xx); returns (bytes, rest after the closing delimiter)
 fn take_hex_string(s: &str, close: char) -> Option<(Vec<u8>, &str)> {
@@ -272,17 +307,101 @@ fn take_hex_string(s: &str, close: char) -> Option<(Vec<u8>, &str)> {
 
 fn rel_name(base: &str, abs: &[u8]) -> Option<String> {
     let p = String::from_utf8_lossy(abs).to_string();
-    p.strip_prefix(base).map(|r| r.trim_start_matches('/').to_string()).filter(|r| !r.is_empty())
+    let r = p.strip_prefix(base)?;
+    if !r.starts_with('/') {
+        return None;
+    }
+    Some(r.trim_start_matches('/').to_string()).filter(|r| !r.is_empty())
 }
 
 /// the write-side operations on `base` between the two marker unlinks, in program order.
-fn read_strace(path: &Path, base: &str) -> Result<(Vec<FsOp>, Vec<FsOp>), String> {
-    let text = std::fs::read_to_string(path).map_err(|e| format!("no strace output: {e}"))?;
-    let mut ops: Vec<FsOp> = vec![];
-    let mut pre: Vec<FsOp> = vec![];
+fn fold_events(evs: &[Ev], base: &str) -> Result<Observed, TraceErr> {
+    let mut o = Observed::default();
     let mut ended = false;
-    let mut fds: BTreeMap<i64, String> = BTreeMap::new();
     let mut active = false;
+    for ev in evs {
+        match ev {
+            Ev::Unlink { path, ok } => {
+                let Some(n) = rel_name(base, path) else { continue };
+                if n == "__BEGIN__" {
+                    active = true;
+                    continue;
+                }
+                if n == "__END__" {
+                    active = false;
+                    ended = true;
+                    continue;
+                }
+                if active {
+                    o.ops.push(FsOp::Unlink { name: n, ok: *ok });
+                } else if !ended && *ok {
+                    // the worker's own reopen (run_cycle's scan_directory) before the save
+                    o.pre.push(FsOp::Unlink { name: n, ok: *ok });
+                }
+            }
+            Ev::Open { path, wr, append, trunc, ok } => {
+                let Some(n) = rel_name(base, path) else { continue };
+                if !*wr || !active {
+                    continue;
+                }
+                if *append {
+                    o.ops.push(FsOp::OpenAppend { name: n, ok: *ok });
+                } else if *trunc {
+                    o.ops.push(FsOp::Create { name: n, ok: *ok });
+                } else {
+                    return Err(TraceErr::Protocol(format!("open for writing without O_TRUNC/O_APPEND (in-place update) on {n}")));
+                }
+            }
+            Ev::Write { path, ok, data } => {
+                let Some(n) = path.as_deref().and_then(|p| rel_name(base, p)) else { continue };
+                if !active {
+                    continue;
+                }
+                if !*ok {
+                    // a failed write changes nothing: dropped from the canonical trace (counted)
+                    o.failed_writes += 1;
+                    continue;
+                }
+                if let Some(FsOp::Write { name: ln, data: ld }) = o.ops.last_mut() {
+                    if *ln == n {
+                        ld.extend_from_slice(data);
+                        continue;
+                    }
+                }
+                if !data.is_empty() {
+                    o.ops.push(FsOp::Write { name: n, data: data.clone() });
+                }
+            }
+            Ev::Fsync { path, ok } => {
+                let Some(n) = path.as_deref().and_then(|p| rel_name(base, p)) else { continue };
+                if active && *ok {
+                    o.ops.push(FsOp::Fsync { name: n });
+                }
+            }
+            Ev::Other { what, path } => {
+                let Some(n) = path.as_deref().and_then(|p| rel_name(base, p)) else { continue };
+                if active {
+                    return Err(TraceErr::Protocol(format!("{what} on {n}: not a sequential write protocol")));
+                }
+            }
+            Ev::Rename { from, to, ok } => {
+                let (Some(a), Some(b)) = (rel_name(base, from), rel_name(base, to)) else { continue };
+                if active {
+                    o.ops.push(FsOp::Rename { from: a, to: b, ok: *ok });
+                }
+            }
+        }
+    }
+    Ok(o)
+}
+
+/// events from `strace -f -y -xx` output
+fn read_strace(path: &Path) -> Result<Vec<Ev>, TraceErr> {
+    let text = std::fs::read_to_string(path).map_err(|e| TraceErr::Infra(format!("no strace output: {e}")))?;
+    if text.trim().is_empty() {
+        return Err(TraceErr::Infra("strace output is empty".into()));
+    }
+    let mut evs = vec![];
     // strace -f splits a call that overlaps another thread's call into `<unfinished ...>` and
     // `<... name resumed>`: glue them together again (per pid), keeping the order of completion.
     let mut pending: BTreeMap<String, String> = BTreeMap::new();
@@ -305,11 +424,17 @@ fn read_strace(path: &Path, base: &str) -> Result<(Vec<FsOp>, Vec<FsOp>), String
         let rest = rest.as_str();
         let Some(par) = rest.find('(') else { continue };
         let name = &rest[..par];
-        let Some(eq) = rest.rfind(") = ") else { continue };
-        let args = &rest[par + 1..eq];
-        let ret = rest[eq + 4..].trim();
+        // `name(args) = ret` — strace pads with blanks before `=` when the text before it is short
+        // (always the case for `<... name resumed>)`)
+        let Some(eqs) = rest.rfind(" = ") else { continue };
+        let before = rest[..eqs].trim_end();
+        if !before.ends_with(')') || before.len() <= par {
+            continue;
+        }
+        let args = &before[par + 1..before.len() - 1];
+        let ret = rest[eqs + 3..].trim();
         let ok = !ret.starts_with("-1");
-        let retfd: i64 = ret.split(|c: char| !c.is_ascii_digit() && c != '-').next().and_then(|x| x.parse().ok()).unwrap_or(-1);
+        let retn: i64 = ret.split(|c: char| !c.is_ascii_digit() && c != '-').next().and_then(|x| x.parse().ok()).unwrap_or(-1);
         // all strings of the argument list
         let strings = |mut a: &str| -> Vec<Vec<u8>> {
             let mut v = vec![];
@@ -324,103 +449,288 @@ fn read_strace(path: &Path, base: &str) -> Result<(Vec<FsOp>, Vec<FsOp>), String
             }
             v
         };
+        // the fd's path as strace resolved it
+        let fdpath = || args.find('<').and_then(|q| take_hex_string(&args[q + 1..], '>')).map(|(b, _)| b);
         match name {
             "unlink" | "unlinkat" => {
-                let ss = strings(args);
-                let Some(p) = ss.first() else { continue };
-                let Some(n) = rel_name(base, p) else { continue };
-                if n == "__BEGIN__" {
-                    active = true;
-                    continue;
-                }
-                if n == "__END__" {
-                    active = false;
-                    ended = true;
-                    continue;
-                }
-                if active {
-                    ops.push(FsOp::Unlink { name: n, ok });
-                } else if !ended && ok {
-                    // the worker's own reopen (run_cycle's scan_directory) before the save
-                    pre.push(FsOp::Unlink { name: n, ok });
+                if let Some(p) = strings(args).into_iter().next() {
+                    evs.push(Ev::Unlink { path: p, ok });
                 }
             }
             "open" | "openat" | "creat" => {
-                let ss = strings(args);
-                let Some(p) = ss.first() else { continue };
-                let Some(n) = rel_name(base, p) else { continue };
-                let wr = args.contains("O_WRONLY") || args.contains("O_RDWR") || name == "creat";
-                if !wr {
-                    continue;
-                }
+                let Some(p) = strings(args).into_iter().next() else { continue };
+                let creat = name == "creat";
+                evs.push(Ev::Open {
+                    path: p,
+                    wr: args.contains("O_WRONLY") || args.contains("O_RDWR") || creat,
+                    append: args.contains("O_APPEND"),
+                    trunc: args.contains("O_TRUNC") || creat,
+                    ok,
+                });
+            }
+            "write" | "writev" => {
+                let mut data = vec![];
                 if ok {
-                    fds.insert(retfd, n.clone());
-                }
-                if !active {
-                    continue;
-                }
-                if args.contains("O_APPEND") {
-                    ops.push(FsOp::OpenAppend { name: n, ok });
-                } else if args.contains("O_TRUNC") || name == "creat" {
-                    ops.push(FsOp::Create { name: n, ok });
-                } else {
-                    return Err(format!("open for writing without O_TRUNC/O_APPEND (in-place update) on {n}: {args}"));
-                }
-            }
-            "write" | "pwrite64" | "writev" | "ftruncate" | "fsync" | "fdatasync" => {
-                let fd: i64 = args.split(|c: char| !c.is_ascii_digit()).next().and_then(|x| x.parse().ok()).unwrap_or(-1);
-                // the fd's path as strace resolved it
-                let fdpath = args.find('<').and_then(|q| take_hex_string(&args[q + 1..], '>')).map(|(b, _)| b);
-                let n = match fdpath.as_deref().and_then(|p| rel_name(base, p)) {
-                    Some(n) => n,
-                    None => continue,
-                };
-                let _ = fds.get(&fd);
-                if !active {
-                    continue;
-                }
-                match name {
-                    "write" => {
-                        if !ok {
-                            return Err(format!("failed write on {n}"));
-                        }
-                        let ss = strings(args);
-                        let mut data = ss.first().cloned().unwrap_or_default();
-                        let wrote = usize::try_from(retfd).unwrap_or(0);
-                        if data.len() < wrote {
-                            return Err(format!("strace truncated the data of a write on {n}"));
-                        }
-                        data.truncate(wrote);
-                        if let Some(FsOp::Write { name: ln, data: ld }) = ops.last_mut() {
-                            if *ln == n {
-                                ld.extend_from_slice(&data);
-                                continue;
-                            }
-                        }
-                        ops.push(FsOp::Write { name: n, data });
+                    if name == "writev" {
+                        // the iovec rendering is not decoded: only allowed away from the directory
+                        evs.push(Ev::Other { what: "writev".into(), path: fdpath() });
+                        continue;
                     }
-                    "fsync" | "fdatasync" => {
-                        if ok {
-                            ops.push(FsOp::Fsync { name: n });
-                        }
+                    data = strings(args).into_iter().next().unwrap_or_default();
+                    let wrote = usize::try_from(retn).unwrap_or(0);
+                    if data.len() < wrote {
+                        return Err(TraceErr::Infra("strace truncated the data of a write".into()));
                     }
-                    other => return Err(format!("{other} on {n}: not a sequential write protocol")),
+                    data.truncate(wrote);
                 }
+                evs.push(Ev::Write { path: fdpath(), ok, data });
             }
+            "fsync" | "fdatasync" => evs.push(Ev::Fsync { path: fdpath(), ok }),
+            "pwrite64" | "ftruncate" => evs.push(Ev::Other { what: name.to_string(), path: fdpath() }),
             "rename" | "renameat" | "renameat2" => {
                 let ss = strings(args);
-                if ss.len() < 2 {
-                    continue;
-                }
-                let (Some(a), Some(b)) = (rel_name(base, &ss[0]), rel_name(base, &ss[1])) else { continue };
-                if active {
-                    ops.push(FsOp::Rename { from: a, to: b, ok });
+                if ss.len() >= 2 {
+                    evs.push(Ev::Rename { from: ss[0].clone(), to: ss[1].clone(), ok });
                 }
             }
             _ => {}
         }
     }
-    Ok((pre, ops))
+    Ok(evs)
+}
+
+/// events from the LD_PRELOAD recorder's log (see SHIM_C for the record formats)
+fn read_shim_log(path: &Path) -> Result<Vec<Ev>, TraceErr> {
+    let text = std::fs::read_to_string(path).map_err(|e| TraceErr::Infra(format!("no recorder log: {e}")))?;
+    if text.trim().is_empty() {
+        return Err(TraceErr::Infra("the LD_PRELOAD recorder wrote nothing (library not loaded?)".into()));
+    }
+    let mut fds: BTreeMap<i64, Vec<u8>> = BTreeMap::new();
+    let resolve = |fds: &BTreeMap<i64, Vec<u8>>, p: &str| -> Vec<u8> {
+        // `@<dirfd>/<relative path>` from an *at call
+        if let Some(r) = p.strip_prefix('@') {
+            if let Some((fd, rel)) = r.split_once('/') {
+                if let Some(d) = fd.parse::<i64>().ok().and_then(|fd| fds.get(&fd)) {
+                    let mut v = d.clone();
+                    v.push(b'/');
+                    v.extend_from_slice(rel.as_bytes());
+                    return v;
+                }
+            }
+        }
+        p.as_bytes().to_vec()
+    };
+    let mut evs = vec![];
+    for line in text.lines() {
+        let f: Vec<&str> = line.split('\t').collect();
+        let num = |i: usize| f.get(i).and_then(|x| x.parse::<i64>().ok());
+        match f.first().copied() {
+            Some("O") => {
+                let (Some(ret), Some(flags), Some(p)) = (num(1), num(3), f.get(4)) else { continue };
+                let path = resolve(&fds, p);
+                let acc = flags & 3;
+                if ret >= 0 {
+                    fds.insert(ret, path.clone());
+                }
+                evs.push(Ev::Open { path, wr: acc == 1 || acc == 2, append: flags & 0o2000 != 0, trunc: flags & 0o1000 != 0, ok: ret >= 0 });
+            }
+            Some("C") => {
+                if let Some(fd) = num(1) {
+                    fds.remove(&fd);
+                }
+            }
+            Some("W") => {
+                let (Some(fd), Some(ret)) = (num(1), num(2)) else { continue };
+                let data = f.get(4).and_then(|h| unhex(h)).unwrap_or_default();
+                if ret >= 0 && data.len() as i64 != ret {
+                    return Err(TraceErr::Infra("recorder log: a write record is cut short".into()));
+                }
+                evs.push(Ev::Write { path: fds.get(&fd).cloned(), ok: ret >= 0, data });
+            }
+            Some("S") => {
+                let (Some(fd), Some(ret)) = (num(1), num(2)) else { continue };
+                evs.push(Ev::Fsync { path: fds.get(&fd).cloned(), ok: ret >= 0 });
+            }
+            Some("X") => {
+                let (Some(what), Some(fd)) = (f.get(1), num(2)) else { continue };
+                evs.push(Ev::Other { what: (*what).to_string(), path: fds.get(&fd).cloned() });
+            }
+            Some("Y") => {
+                let (Some(what), Some(p)) = (f.get(1), f.get(3)) else { continue };
+                evs.push(Ev::Other { what: (*what).to_string(), path: Some(resolve(&fds, p)) });
+            }
+            Some("R") => {
+                let (Some(ret), Some(a), Some(b)) = (num(1), f.get(2), f.get(3)) else { continue };
+                evs.push(Ev::Rename { from: resolve(&fds, a), to: resolve(&fds, b), ok: ret >= 0 });
+            }
+            Some("U") => {
+                let (Some(ret), Some(p)) = (num(1), f.get(2)) else { continue };
+                evs.push(Ev::Unlink { path: resolve(&fds, p), ok: ret >= 0 });
+            }
+            _ => {}
+        }
+    }
+    Ok(evs)
+}
+
+/// a command for an external tool (cc, strace) with a PATH that has the standard directories even
+/// when the harness was started with an empty environment
+fn tool(name: &str) -> Command {
+    let std_dirs = "/usr/local/sbin:/usr/local/bin:/usr/sbin:/usr/bin:/sbin:/bin";
+    let path = match std::env::var("PATH") {
+        Ok(p) if !p.is_empty() => format!("{p}:{std_dirs}"),
+        _ => std_dirs.to_string(),
+    };
+    // resolve the program ourselves: Command looks the name up in the PARENT's PATH
+    let prog = path.split(':').map(|d| Path::new(d).join(name)).find(|p| p.is_file()).unwrap_or_else(|| PathBuf::from(name));
+    let mut c = Command::new(prog);
+    c.env("PATH", path).stdin(std::process::Stdio::null());
+    c
+}
+
+struct Tracer {
+    /// the compiled recorder library (kept in `_shim_dir`)
+    shim: Option<PathBuf>,
+    _shim_dir: Option<tempfile::TempDir>,
+    strace: bool,
+    desc: String,
+}
+
+static TRACER: std::sync::OnceLock<Tracer> = std::sync::OnceLock::new();
+static XCHECK_RUNS: std::sync::atomic::AtomicU64 = std::sync::atomic::AtomicU64::new(0);
+static XCHECK_DIFFS: std::sync::Mutex<Vec<String>> = std::sync::Mutex::new(Vec::new());
+
+const STRACE_ARGS: [&str; 7] = ["-f", "-y", "-xx", "-s", "4000000", "-e", "trace=open,openat,creat,write,pwrite64,writev,ftruncate,fsync,fdatasync,rename,renameat,renameat2,unlink,unlinkat"];
+const PROBE_TRACE: &str = "creat p;write p 3 e71fa2190541574b;fsync p;rename p q;unlink q";
+
+/// run `exe --worker <wargs>` under the given tracers; returns (stdout, stderr, per-tracer events)
+#[allow(clippy::type_complexity)]
+fn run_traced(shim: Option<&Path>, strace: bool, wargs: &[String]) -> Result<(String, String, Option<Result<Vec<Ev>, TraceErr>>, Option<Result<Vec<Ev>, TraceErr>>), String> {
+    let exe = std::env::current_exe().map_err(|e| e.to_string())?;
+    let logs = tempfile::tempdir().map_err(|e| format!("no scratch directory: {e}"))?;
+    let shim_log = logs.path().join("calls.log");
+    let strace_log = logs.path().join("strace.out");
+    let mut cmd;
+    if strace {
+        cmd = tool("strace");
+        cmd.args(STRACE_ARGS).arg("-o").arg(&strace_log);
+        if let Some(sh) = shim {
+            // -E: the variables are set for the traced program only, not for strace itself
+            cmd.arg("-E").arg(format!("LD_PRELOAD={}", sh.display()));
+            cmd.arg("-E").arg(format!("C06_TRACE_LOG={}", shim_log.display()));
+        }
+        cmd.arg(&exe);
+    } else {
+        cmd = Command::new(&exe);
+        if let Some(sh) = shim {
+            cmd.env("LD_PRELOAD", sh).env("C06_TRACE_LOG", &shim_log);
+        }
+    }
+    cmd.arg("--worker").args(wargs).stdin(std::process::Stdio::null());
+    let out = cmd.output().map_err(|e| format!("cannot run the worker{}: {e}", if strace { " under strace" } else { "" }))?;
+    let a = shim.map(|_| read_shim_log(&shim_log));
+    let b = if strace { Some(read_strace(&strace_log)) } else { None };
+    Ok((String::from_utf8_lossy(&out.stdout).to_string(), String::from_utf8_lossy(&out.stderr).to_string(), a, b))
+}
+
+fn probe(shim: Option<&Path>, strace: bool) -> Result<(), String> {
+    let td = tempfile::tempdir().map_err(|e| format!("no scratch directory: {e}"))?;
+    let dir = td.path().canonicalize().map_err(|e| e.to_string())?;
+    let base = dir.to_string_lossy().to_string();
+    let (stdout, stderr, a, b) = run_traced(shim, strace, &["probe".to_string(), base.clone(), "-".to_string()])?;
+    if !stdout.contains("RESULT ok") {
+        return Err(format!("probe worker did not finish: {}", stderr.chars().take(300).collect::<String>()));
+    }
+    for r in [a, b].into_iter().flatten() {
+        let evs = r.map_err(|e| format!("{e:?}"))?;
+        let o = fold_events(&evs, &base).map_err(|e| format!("{e:?}"))?;
+        let got = trace_text(&o.ops);
+        if got != PROBE_TRACE {
+            return Err(format!("probe trace is `{got}`, expected `{PROBE_TRACE}`"));
+        }
+    }
+    Ok(())
+}
+
+fn build_shim() -> Result<(PathBuf, tempfile::TempDir), String> {
+    let mut why = vec![];
+    let mut places: Vec<PathBuf> = vec![std::env::temp_dir()];
+    // a /tmp mounted noexec cannot hold a shared object: the directory of this binary can
+    if let Some(d) = std::env::current_exe().ok().and_then(|e| e.parent().map(Path::to_path_buf)) {
+        places.push(d);
+    }
+    for place in places {
+        let td = match tempfile::Builder::new().prefix("c06shim").tempdir_in(&place) {
+            Ok(t) => t,
+            Err(e) => {
+                why.push(format!("{}: {e}", place.display()));
+                continue;
+            }
+        };
+        let c = td.path().join("shim.c");
+        let so = td.path().join("c06shim.so");
+        if let Err(e) = std::fs::write(&c, SHIM_C) {
+            why.push(format!("{}: {e}", c.display()));
+            continue;
+        }
+        let mut built = false;
+        for cc in ["cc", "gcc", "clang"] {
+            match tool(cc).args(["-shared", "-fPIC", "-O2", "-o"]).arg(&so).arg(&c).arg("-ldl").output() {
+                Ok(o) if o.status.success() && so.exists() => {
+                    built = true;
+                    break;
+                }
+                Ok(o) => why.push(format!("{cc}: {}", String::from_utf8_lossy(&o.stderr).chars().take(200).collect::<String>())),
+                Err(e) => why.push(format!("{cc}: {e}")),
+            }
+        }
+        if !built {
+            continue;
+        }
+        match probe(Some(&so), false) {
+            Ok(()) => return Ok((so, td)),
+            Err(e) => why.push(format!("{}: {e}", place.display())),
+        }
+    }
+    Err(why.join("; "))
+}
+
+fn init_tracer() -> &'static Tracer {
+    TRACER.get_or_init(|| {
+        let shim = if std::env::var_os("C06_NO_SHIM").is_some() { Err("disabled by C06_NO_SHIM".to_string()) } else { build_shim() };
+        let strace: Result<(), String> = if std::env::var_os("C06_NO_STRACE").is_some() {
+            Err("disabled by C06_NO_STRACE".into())
+        } else {
+            match tool("strace").args(["-o", "/dev/null", "-e", "trace=write", "true"]).output() {
+                Ok(o) if o.status.success() => probe(None, true),
+                Ok(o) => Err(format!("strace cannot trace: {}", String::from_utf8_lossy(&o.stderr).trim().chars().take(200).collect::<String>())),
+                Err(e) => Err(format!("strace cannot be run: {e}")),
+            }
+        };
+        match (shim, strace) {
+            (Ok((so, td)), Ok(())) => Tracer { shim: Some(so), _shim_dir: Some(td), strace: true, desc: "ld_preload (cross-checked against strace on every save)".into() },
+            (Ok((so, td)), Err(e)) => Tracer { shim: Some(so), _shim_dir: Some(td), strace: false, desc: format!("ld_preload (strace unavailable: {e})") },
+            (Err(e), Ok(())) => Tracer { shim: None, _shim_dir: None, strace: true, desc: format!("strace (ld_preload unavailable: {e})") },
+            (Err(e1), Err(e2)) => {
+                eprintln!("c06: INFRASTRUCTURE ERROR: no usable tracer. ld_preload: {e1}. strace: {e2}");
+                std::process::exit(4);
+            }
+        }
+    })
+}
+
+fn drop_tracer_files() {
+    if let Some(t) = TRACER.get() {
+        if let Some(d) = &t._shim_dir {
+            let _ = std::fs::remove_dir_all(d.path());
+        }
+    }
+}
+
+fn infra_exit(msg: &str) -> ! {
+    eprintln!("c06: INFRASTRUCTURE ERROR (not a statement about the property): {msg}");
+    drop_tracer_files();
+    std::process::exit(4);
 }
 
 // ---------------------------------------------------------------------------------------------
@@ -494,6 +804,21 @@ fn worker(a: &[String]) {
     let script: Vec<&str> = a[2].split(',').filter(|x| !x.is_empty() && *x != "-").collect();
     let param = |k: &str| a[3..].iter().find_map(|x| x.strip_prefix(&format!("{k}=")).map(str::to_string));
     match routine {
+        "probe" => {
+            // tracer self-test: one save-shaped sequence with a known canonical trace
+            use std::io::Write;
+            marker(&dir, "__BEGIN__");
+            let r = (|| -> std::io::Result<()> {
+                let mut f = std::fs::File::create(dir.join("p"))?;
+                f.write_all(b"abc")?;
+                f.sync_all()?;
+                drop(f);
+                std::fs::rename(dir.join("p"), dir.join("q"))?;
+                std::fs::remove_file(dir.join("q"))
+            })();
+            marker(&dir, "__END__");
+            println!("RESULT {}", if r.is_ok() { "ok" } else { "err" });
+        }
         "idx" => {
             let rt = rt();
             let mut m = IndexManager::new(&dir);
@@ -711,6 +1036,7 @@ fn load_state(ctx: &Ctx, snap: &Snap) -> String {
 struct StepOut {
     pre: Vec<FsOp>,
     trace: Vec<FsOp>,
+    failed_writes: u64,
     old: Snap,
     new: Snap,
     expected: Option<String>,
@@ -718,22 +1044,23 @@ struct StepOut {
     info: BTreeMap<String, String>,
 }
 
-fn run_worker(ctx: &Ctx, dir: &Path, script: &str) -> Result<StepOut, String> {
+fn run_worker(ctx: &Ctx, dir: &Path, script: &str) -> Result<StepOut, TraceErr> {
+    let tracer = init_tracer();
+    // strace -y prints resolved paths: work with the resolved name of the scratch directory
+    let dir_c = dir.canonicalize().unwrap_or_else(|_| dir.to_path_buf());
+    let dir = dir_c.as_path();
     let old = snapshot(dir);
-    let exe = std::env::current_exe().map_err(|e| e.to_string())?;
-    let tr = tempfile::NamedTempFile::new().map_err(|e| e.to_string())?;
     let base = dir.to_string_lossy().to_string();
-    let mut cmd = Command::new("strace");
-    cmd.args(["-f", "-y", "-xx", "-s", "4000000", "-e", "trace=open,openat,creat,write,pwrite64,writev,ftruncate,fsync,fdatasync,rename,renameat,renameat2,unlink,unlinkat", "-o"])
-        .arg(tr.path())
-        .arg(&exe)
-        .args(["--worker", &ctx.routine, &base, script])
-        .arg(format!("cap={}", ctx.cap))
-        .arg(format!("name={}", ctx.name))
-        .arg(format!("sub={}", ctx.sub))
-        .arg(format!("uni={}", if ctx.routine == "res" { ctx.universe.join("/") } else { String::new() }));
-    let out = cmd.output().map_err(|e| format!("cannot run strace: {e}"))?;
-    let stdout = String::from_utf8_lossy(&out.stdout).to_string();
+    let wargs: Vec<String> = vec![
+        ctx.routine.clone(),
+        base.clone(),
+        script.to_string(),
+        format!("cap={}", ctx.cap),
+        format!("name={}", ctx.name),
+        format!("sub={}", ctx.sub),
+        format!("uni={}", if ctx.routine == "res" { ctx.universe.join("/") } else { String::new() }),
+    ];
+    let (stdout, stderr, shim_evs, strace_evs) = run_traced(tracer.shim.as_deref(), tracer.strace, &wargs).map_err(TraceErr::Infra)?;
     let mut info = BTreeMap::new();
     for l in stdout.lines() {
         if let Some((k, v)) = l.split_once(' ') {
@@ -742,17 +1069,37 @@ fn run_worker(ctx: &Ctx, dir: &Path, script: &str) -> Result<StepOut, String> {
             info.insert(l.to_string(), String::new());
         }
     }
-    let result = info.get("RESULT").cloned().unwrap_or_else(|| format!("crashed:{}", String::from_utf8_lossy(&out.stderr).chars().take(200).collect::<String>()));
-    let (pre, trace) = read_strace(tr.path(), &base)?;
+    let result = info.get("RESULT").cloned().unwrap_or_else(|| format!("crashed:{}", stderr.chars().take(200).collect::<String>()));
+    // primary tracer first; the other one when the primary did not deliver
+    let fold = |r: Option<Result<Vec<Ev>, TraceErr>>| r.map(|r| r.and_then(|evs| fold_events(&evs, &base)));
+    let (a, b) = (fold(shim_evs), fold(strace_evs));
+    let obs = match (a, b) {
+        (Some(Ok(x)), Some(Ok(y))) => {
+            XCHECK_RUNS.fetch_add(1, std::sync::atomic::Ordering::Relaxed);
+            if x.ops != y.ops || x.pre != y.pre {
+                let msg = format!("{} `{script}`: ld_preload `{}` vs strace `{}`", ctx.routine, short(&trace_text(&x.ops)), short(&trace_text(&y.ops)));
+                eprintln!("c06: tracer cross-check difference (harness defect, not a property violation): {msg}");
+                if let Ok(mut v) = XCHECK_DIFFS.lock() {
+                    v.push(msg);
+                }
+            }
+            x
+        }
+        (Some(Ok(x)), _) | (_, Some(Ok(x))) => x,
+        (Some(Err(TraceErr::Protocol(e))), _) | (_, Some(Err(TraceErr::Protocol(e)))) => return Err(TraceErr::Protocol(e)),
+        (Some(Err(e)), None) | (None, Some(Err(e))) => return Err(e),
+        (Some(Err(TraceErr::Infra(e1))), Some(Err(TraceErr::Infra(e2)))) => return Err(TraceErr::Infra(format!("ld_preload: {e1}; strace: {e2}"))),
+        (None, None) => return Err(TraceErr::Infra("no tracer".into())),
+    };
     let new = snapshot(dir);
     // what the worker's own reopen removed before the save started is part of the old state
     let mut old = old;
-    for o in &pre {
+    for o in &obs.pre {
         if let FsOp::Unlink { name, .. } = o {
             old.remove(name);
         }
     }
-    Ok(StepOut { pre, trace, old, new, expected: info.get("STATE").cloned(), result, info })
+    Ok(StepOut { pre: obs.pre, trace: obs.ops, failed_writes: obs.failed_writes, old, new, expected: info.get("STATE").cloned(), result, info })
 }
 
 fn hexs(b: &[u8]) -> String {
@@ -888,11 +1235,12 @@ impl Hist {
         }
         let so = match run_worker(&self.ctx, self.dir.path(), script) {
             Ok(so) => so,
-            Err(e) => {
+            Err(TraceErr::Infra(e)) => infra_exit(&format!("{} `{script}`: {e}", self.ctx.routine)),
+            Err(TraceErr::Protocol(e)) => {
                 let line = format!("step {script} | ?");
-                s.line(&line, &format!("harness-error {e}"));
+                s.line(&line, &format!("outside-protocol {e}"));
                 self.replay.push(line.clone());
-                s.oracle_fail("trace-unreadable", &format!("{}: {e}", self.ctx.routine), &self.replay);
+                s.oracle_fail("save-call-outside-protocol", &format!("{}: {e}", self.ctx.routine), &self.replay);
                 self.dead = true;
                 return;
             }
@@ -914,6 +1262,9 @@ impl Hist {
         }
         if so.result != "ok" {
             s.tally(&format!("{}:save-{}", self.ctx.routine, so.result.split(':').next().unwrap_or("?")));
+        }
+        if so.failed_writes > 0 {
+            s.tally_n(&format!("{}:failed-write-calls", self.ctx.routine), so.failed_writes);
         }
         let routine = self.ctx.routine.clone();
         let old_d = durable(&so.old);
@@ -1252,14 +1603,25 @@ fn main() {
         worker(&raw[2..]);
         return;
     }
+    if raw.get(1).map(String::as_str) == Some("--parse-trace") && raw.len() >= 5 {
+        // debugging aid: c06 --parse-trace strace|shim FILE BASE
+        let evs = if raw[2] == "strace" { read_strace(Path::new(&raw[3])) } else { read_shim_log(Path::new(&raw[3])) };
+        match evs.and_then(|e| fold_events(&e, &raw[4])) {
+            Ok(o) => println!("pre={} ops={} failed_writes={}", trace_text(&o.pre), trace_text(&o.ops), o.failed_writes),
+            Err(e) => println!("{e:?}"),
+        }
+        return;
+    }
     quiet_panics();
     let args = Args::parse();
+    let tracer = init_tracer();
     let mut s = Session::new(&args.out);
+    s.extra.insert("tracer".into(), serde_json::json!(tracer.desc));
     s.rule = "one case = one crash state (cut position × un-synced-content variant, distinct directory images only) of one straced save, evaluated with the real loader; non-trivial = every such state (the loader ran on a directory that differs from the previous one); distinct = routine + script + old directory + cut + variant".into();
     if let Some(p) = &args.replay {
         let lines = read_case(p);
         replay_file(&mut s, &lines, args.thorough());
-        s.finish();
+        finish(s);
         return;
     }
     let mut r = Rng::new(args.seed);
@@ -1269,5 +1631,16 @@ fn main() {
             gen_history(&mut s, &mut r, routine, args.thorough(), v);
         }
     }
+    finish(s);
+}
+
+fn finish(mut s: Session) {
+    s.extra.insert("tracer_crosscheck_runs".into(), serde_json::json!(XCHECK_RUNS.load(std::sync::atomic::Ordering::Relaxed)));
+    let diffs = XCHECK_DIFFS.lock().map(|v| v.clone()).unwrap_or_default();
+    s.extra.insert("tracer_crosscheck_differences".into(), serde_json::json!(diffs.len()));
+    if !diffs.is_empty() {
+        s.extra.insert("tracer_crosscheck_samples".into(), serde_json::json!(diffs.iter().take(5).collect::<Vec<_>>()));
+    }
+    drop_tracer_files();
     s.finish();
 }
